@@ -136,6 +136,9 @@ pub const EFFECTIVE: &[(&str, &str, usize, bool, &str)] = &[
     ("cmap::Cmap4", "seg_count_x2", 8190, false, "cmap format 4 subtable exceeds max length"),
 ];
 
+/// interior lengths judged with the strong oracle in both tiers (see `run_family`)
+pub const INTERIOR_LENGTHS: &[usize] = &[256, 32768];
+
 pub const LENGTH_BOUND_MESSAGE: &str = "array exceeds max length";
 
 /// does the report contain `message`, and (for the generated length bound) at one of the group's arrays?
@@ -310,17 +313,25 @@ pub fn name_boundary(ctx: &Ctx, reg: &[TypeOps], records: usize, tags: Option<us
 
 pub fn run_family(ctx: &Ctx, reg: &[TypeOps]) -> Local {
     let deep = ctx.run.tier == Tier::Thorough;
-    let mut jobs: Vec<(usize, Group, usize)> = vec![];
+    let mut jobs: Vec<(usize, Group, usize, bool)> = vec![];
     let mut listing = vec![];
     for (i, ops) in reg.iter().enumerate() {
         for g in groups(ctx, ops.module, ops.name) {
             listing.push(json!({"type": ops.full(), "arrays": g.arrays, "count_field": g.count_field, "count_type": g.count_type, "via": g.how, "max_len": g.max}));
             for (n, _) in lengths(&g) {
-                jobs.push((i, g.clone(), n));
+                jobs.push((i, g.clone(), n, deep));
             }
             for (t, c, n, _, _) in EFFECTIVE {
                 if *t == ops.full() && *c == g.count_field {
-                    jobs.push((i, g.clone(), *n));
+                    jobs.push((i, g.clone(), *n, deep));
+                }
+            }
+            // interior width boundaries, always with the strong round trip (both tiers): the first
+            // length that does not fit u8 and the first that does not fit i16 / sets the u16 sign bit
+            // (a size or offset computed in a narrower type than the count field wraps here)
+            for n in INTERIOR_LENGTHS {
+                if *n <= g.max {
+                    jobs.push((i, g.clone(), *n, true));
                 }
             }
         }
@@ -328,14 +339,15 @@ pub fn run_family(ctx: &Ctx, reg: &[TypeOps]) -> Local {
     ctx.run.bound(
         "count_width_family",
         json!({"lengths": "count type max and max+1 (u8, u16; minus one for plus_one, halved for 2*array_len); 65535 and 65536 for Uint24/u32 counts",
-               "oracle": if deep { "validate + strong round trip" } else { "validate only" }, "groups": listing.len()}),
+               "oracle": if deep { "validate + strong round trip" } else { "validate only" }, "groups": listing.len(),
+               "interior_lengths_with_strong_round_trip_in_both_tiers": INTERIOR_LENGTHS}),
     );
     ctx.run.extra("count_width_groups", json!(listing));
     let parts: Vec<Local> = jobs
         .par_iter()
-        .map(|(i, g, n)| {
+        .map(|(i, g, n, d)| {
             let mut l = Local::default();
-            (reg[*i].bound_case)(ctx, &reg[*i], g, *n, deep, &mut l);
+            (reg[*i].bound_case)(ctx, &reg[*i], g, *n, *d, &mut l);
             l
         })
         .collect();
